@@ -925,3 +925,7 @@ pub mod builder {
 
 #[cfg(test)]
 mod tests;
+
+#[cfg(all(aws_s2n_quic_verif, test))]
+#[path = "/verif/harness/core/cubic.rs"]
+mod verif;
